@@ -2,8 +2,8 @@
 
 M: specs/Dualstaking.tla (StakeNewEntry new/modify, MoveProviderStake, UnstakeEntry by vault / by provider,
    DelegateFull, UnbondFull, Redelegate, AfterDelegationModified, UnbondUniformProviders, the staking hooks)
-   exhaustively: metadata/entries/self-stake/total-delegations invariants hold for the design; the
-   delegate-total clause is violated by the model itself (it transcribes the code) - a candidate only.
+   exhaustively: every C07 clause holds for the design (Fixed = TRUE = the code with fixes F6, F6b, F6c;
+   Dualstaking_asis_mcq.cfg documents that the code before the fixes violated three clauses).
 G: TLC -simulate histories (2 providers x 3 chains, 2 delegators, 2 validators, 14 operations incl.
    validator-side operations, slashes and unstake by provider address).
 R: harness/t/dualstaking replays them through the real message servers, one fresh chain per history.
@@ -87,7 +87,7 @@ def confirm(ctx, findings, clauses):
 
 
 def generate(ctx, keep_slash=False):
-    sim = vlib.tlc_sim(ctx, "Dualstaking", "Dualstaking_sim.cfg", num=ctx.pick(120, 1500), depth=15, timeout=1800)
+    sim = vlib.tlc_sim(ctx, "Dualstaking", "Dualstaking_sim.cfg", num=ctx.pick(120, 1500), depth=17, timeout=1800)
     behs = sim["behaviours"]
     if not keep_slash:
         # C07 quantifies over stake / modify / move / unstake / delegate / redelegate / unbond histories
@@ -99,19 +99,12 @@ def run(ctx):
     mc = vlib.tlc_mc(ctx, "Dualstaking", ctx.pick("Dualstaking_mcq.cfg", "Dualstaking_mc.cfg"), timeout=ctx.pick(900, 5400))
     if mc["violated"]:
         raise vlib.Infra("design-level spec violates %s; spec must be repaired (see %s)" % (mc["violated"], mc["outfile"]))
-    ctx.add_mc("Dualstaking exhaustive (metadata / self-stake / total-delegations / mirror)", mc)
-    dt = vlib.tlc_mc(ctx, "Dualstaking", "Dualstaking_mcq_dt.cfg", timeout=900, tag="Dualstaking_dt")
-    ctx.notes.append("design level, code as it is: self-stake / delegate-total / frozen clauses: %s (candidate only)" % (dt["violated"] or "hold"))
-    fx = vlib.tlc_mc(ctx, "Dualstaking", ctx.pick("Dualstaking_fixed_mcq.cfg", "Dualstaking_fixed_mc.cfg"), timeout=ctx.pick(900, 5400),
-                     tag="Dualstaking_fixed")
-    if fx["violated"]:
-        raise vlib.Infra("design-level spec of the repaired code violates %s (see %s)" % (fx["violated"], fx["outfile"]))
-    ctx.add_mc("Dualstaking exhaustive, Fixed = TRUE (all C07 clauses)", fx)
+    ctx.add_mc("Dualstaking exhaustive (all C07 clauses + mirror)", mc)
     behs = generate(ctx)
     ctx.cov["evaluations"] = len(behs)
     ctx.cov["distinct_nontrivial"] = len({vlib.json.dumps(b) for b in behs
                                           if sum(1 for s in b if s["op"] == "stake") >= 2 and any(s["op"].startswith("ds") for s in b)})
-    ctx.cov["rule"] = ("behaviour = 14 operations drawn by TLC -simulate from Dualstaking.tla GenNext (stake/modify, move, unstake by "
+    ctx.cov["rule"] = ("behaviour = 16 operations drawn by TLC -simulate from Dualstaking.tla GenNext (stake/modify, move, unstake by "
                        "vault, unstake by provider, ds delegate/unbond/redelegate, validator delegate/undelegate/redelegate, cancel-"
                        "unbond, slash, next-day); non-trivial = at least two stake operations and one dualstaking tx; distinct by "
                        "full operation list")
@@ -132,6 +125,8 @@ def run(ctx):
     for op in ("stake", "move", "unstakeV", "unstakeP", "dsdelegate", "dsunbond", "dsredelegate"):
         if st["ok_ops"].get(op, 0) < (need if op != "move" else max(3, need // 5)):
             raise vlib.Infra("vacuous: only %d accepted %s operations" % (st["ok_ops"].get(op, 0), op))
+    if st["multi_unstakeP"] < 1:
+        raise vlib.Infra("vacuous: no accepted unstake by provider address on a multi-chain provider with delegations")
     confirm(ctx, findings, CLAUSES)
 
 
